@@ -119,6 +119,19 @@ def run_check(pid, tier, seed, replay=None):
     os.makedirs(os.path.join(VERIF, 'replays'), exist_ok=True)
     new_violations = []
     seen_known = set()
+    # replay the witness of every listed finding on every run
+    for kf in known.get('findings', []):
+        if kf['property'] == pid and hasattr(mod, 'replay_known'):
+            try:
+                with contextlib.redirect_stdout(io.StringIO()):
+                    still = mod.replay_known(kf)
+            except Exception:
+                still = True
+            if still:
+                out_lines.append(f"KNOWN-FINDING: property={pid} {kf['what']}")
+                seen_known.add(kf['key'])
+            else:
+                ctx.notes.append(f"listed finding {kf['key']} no longer reproduces on its witness")
     for v in ctx.violations:
         kf = match_known(pid, v, known)
         if kf:
